@@ -273,8 +273,8 @@ def finalize(agg, tier):
                 "raised, fresh solver for the problem object of an earlier execution (callbacks returning fresh / cached / memoised objects or fresh values on a shared sparsity structure) after that object was solved under another configuration; each worker process additionally carries the history of all earlier cases of its shard; a position "
                 "is non-trivial when it could be compared step by step and was identical; positions are distinct by "
                 "construction",
-        "floors": {"histories": 100, "position_resolve_same_object": 100, "position_fresh_after_other": 150,
-                   "position_after_raise": 80, "default_params_runs": 5, "position_params_object_reused": 60,
-                   "position_same_problem_object": 60},
+        "floors": {"histories": 100, "position_resolve_same_object": 70, "position_fresh_after_other": 120,
+                   "position_after_raise": 60, "default_params_runs": 5, "position_params_object_reused": 45,
+                   "position_same_problem_object": 45},
         "assumptions": ["bit-identical comparison of every trial record, status, counters, x, y, d, dist_factor"],
     }
